@@ -32,14 +32,14 @@ def query(lo, hi, series, c, order='none', asc=True, offset=0, limit=0):
 
 
 def mc_files(fam):
-    tags = row_tags(fam['maxtotal'])
-    rt = '[i \\in 1..%d |-> CASE ' % fam['maxtotal'] + ' [] '.join(
+    tags = row_tags(max(fam['maxtotal'], max(fam['series'])))
+    rt = '[i \\in 1..%d |-> CASE ' % max(fam['maxtotal'], max(fam['series'])) + ' [] '.join(
         'i = %d -> [a |-> %d, b |-> %d, arr |-> %s]' % (i, t['a'], t['b'], tla_set(t['arr'])) for i, t in tags.items()) + ']'
     qs = '{' + ',\n  '.join(fam.get('queries', [])) + '}'
     mc = '---- MODULE MCEng ----\nEXTENDS Engine\nMCRowTags == %s\nMCQueries == %s\n====\n' % (rt, qs)
     cfg = ('SPECIFICATION Spec\nCONSTANTS\n  Series = %s\n  Times = %s\n  Versions = %s\n  Versioned = %s\n  MaxRows = %d\n  MaxTotal = %d\n'
-           '  MaxOps = %%d\n  RowTags <- MCRowTags\n  Queries <- MCQueries\n') % (
-        tla_set(fam['series']), tla_set(fam['times']), tla_set(fam['versions']), 'TRUE' if fam['versioned'] else 'FALSE', fam['maxrows'], fam['maxtotal'])
+           '  MaxOps = %%d\n  RowTags <- MCRowTags\n  Queries <- MCQueries\n  TagsBySeries = %s\n') % (
+        tla_set(fam['series']), tla_set(fam['times']), tla_set(fam['versions']), 'TRUE' if fam['versioned'] else 'FALSE', fam['maxrows'], fam['maxtotal'], 'TRUE' if fam.get('tags_by_series') else 'FALSE')
     cfg += 'INVARIANTS\n' + ''.join('  %s\n' % i for i in INVARIANTS) + 'PROPERTIES\n' + ''.join('  %s\n' % p for p in PROPS)
     return mc, cfg, tags
 
@@ -79,7 +79,8 @@ def run_families(c, families, binp, nontrivial, procs=6):
         tot['sims'] += len(sb)
         c.log('family %-26s TLC %7d states; graph %6d edges -> %5d behaviours (+%d simulated)' % (fam['name'], r.distinct, len(edges), len(behs), len(sb)))
         hcfg = dict(rowTags={str(k): v for k, v in tags.items()}, index=fam.get('index', 'none'), engine=fam.get('engine', 'measure'),
-                    versioned=fam['versioned'], flags=fam.get('flags', []), big=fam.get('big', False))
+                    versioned=fam['versioned'], flags=fam.get('flags', []), big=fam.get('big', False),
+                    tagsBySeries=bool(fam.get('tags_by_series')), negZero=bool(fam.get('negzero')))
         res = c.run_harness_parallel(binp, ['-cfg', json.dumps(hcfg)], allb, name='eng-' + fam['name'], procs=procs, timeout=2400, max_per_proc=120)
         if res['inconclusive']:
             c.inconclusive('; '.join(res['inconclusive'][:3]))
